@@ -42,7 +42,7 @@ CORPORA = {
     "ctor": dict(model="MC_Build", cfg="MC_Ctor", quick=dict(MaxContent=17, BigPalettes="{257, 21847, 21848, 65537, 65538}"), thorough=dict(MaxContent=40, BigPalettes="{257, 21847, 21848, 21849, 65537, 65538}"), profiles=DEV_REL, place="end"),
     "ctorsized": dict(model="MC_Build", cfg="MC_CtorSized", quick=dict(MaxContent=1), thorough=dict(MaxContent=1), profiles=ALL_CFGS, place="end"),
     # very many small tags, calls on a 256 KiB stack (4096: between the dev and release depths of a recursive skip; 70000: beyond 2^16)
-    "tile": dict(model="MC_Tile", quick=dict(TileNs="{1, 2000, 4096, 70000}", TileStack=262144), thorough=dict(TileNs="{1, 2000, 4096, 70000, 400000}", TileStack=262144),
+    "tile": dict(model="MC_Tile", quick=dict(TileNs="{1, 2000, 4096, 70000}", TileStack=262144), thorough=dict(TileNs="{1, 2000, 4096, 70000, 100000}", TileStack=262144),
                  profiles=DEV_REL, place="end"),
     "boxed": dict(model="MC_Build", cfg="MC_Boxed", quick=dict(MaxTotal=8), thorough=dict(MaxTotal=17), profiles=DEV_REL, place="end"),
     "builder": dict(model="MC_Build", cfg="MC_Builder", quick=dict(MaxSeq=2), thorough=dict(MaxSeq=3), profiles=DEV_REL, place="end"),
